@@ -269,6 +269,9 @@ impl<'a> Gen<'a> {
                 if self.tape.chance(1, 5) {
                     // an array of tuples (built from literals, pipelines and type filters over mixed tuples)
                     Ty::arr(Ty::Tup(vec![self.gen_scalar_ty(), self.gen_scalar_ty()]))
+                } else if self.tape.chance(1, 6) {
+                    // an array of arrays (rows)
+                    Ty::arr(Ty::arr(self.gen_scalar_ty()))
                 } else {
                     Ty::arr(self.gen_scalar_ty())
                 }
@@ -867,6 +870,42 @@ impl<'a> Gen<'a> {
             let items: Vec<Expr> = (0..n).map(|_| if self.tape.bool() { self.expr(elem, depth - 1) } else { self.expr(&other, depth - 1) }).collect();
             let source = if items.is_empty() { self.empty_arr(elem) } else { Expr::Array(items) };
             return Expr::TypeFilter(Box::new(Expr::Iter(Box::new(source))), elem.clone());
+        }
+        if let Ty::Arr(inner) = elem
+            && depth >= 1
+            && matches!(**inner, Ty::Int | Ty::Str | Ty::Bool | Ty::Float)
+            && self.tape.chance(1, 3)
+        {
+            // a type filter for an array type over arrays built at run time from union-typed expressions
+            // that hold the element type (the label of such an array is what it holds), and over arrays of
+            // another element type
+            self.label("type filter for an array type over arrays built from union-typed elements");
+            // (one of the three other scalar types; no loop: an exhausted tape answers 0 for ever)
+            let others: Vec<Ty> = scalar_types().into_iter().filter(|t| *t != **inner).collect();
+            let other = others[self.tape.below(others.len())].clone();
+            let n = 1 + self.tape.below(4);
+            let mut rows = vec![];
+            for _ in 0..n {
+                let row = match self.tape.weighted(&[3, 3, 2]) {
+                    0 => {
+                        let m = 1 + self.tape.below(2);
+                        Expr::Array((0..m).map(|_| self.expr(inner, depth - 1)).collect())
+                    }
+                    1 => {
+                        // `[[e, other][0], e2]`: statically an array of the union, at run time of the member
+                        let e = self.expr(inner, depth - 1);
+                        let pick = Expr::Index(Box::new(Expr::Array(vec![e, self.leaf(&other)])), Box::new(Expr::Int(0)));
+                        let mut items = vec![pick];
+                        if self.tape.bool() {
+                            items.push(self.expr(inner, depth - 1));
+                        }
+                        Expr::Array(items)
+                    }
+                    _ => Expr::Array(vec![self.expr(&other, depth - 1)]),
+                };
+                rows.push(row);
+            }
+            return Expr::TypeFilter(Box::new(Expr::Iter(Box::new(Expr::Array(rows)))), elem.clone());
         }
         if let Ty::Tup(parts) = elem
             && depth >= 1
@@ -1864,7 +1903,18 @@ impl<'a> Gen<'a> {
                     other => ("=", other.clone()),
                 };
                 let compound_rhs = vt == Ty::Int && matches!(op, "/=" | "%=" | "<<=" | ">>=" | "**=") && self.tape.chance(1, 3);
+                let own_content = vt == Ty::Int && op == "=" && self.tape.chance(1, 4);
                 let value = match op {
+                    // `c = *c op (c op= k)`: the old content is read before the right operand updates the cell
+                    _ if own_content => {
+                        self.label("assignment from the cell's own content and an update of it");
+                        let o = *self.tape.pick(&["+", "-", "*"]);
+                        let inner_op = *self.tape.pick(&["+=", "=", "*=", "-="]);
+                        let k = self.lit(&Ty::Int);
+                        let update = Expr::Assign(inner_op, Box::new(Expr::Var(c.name.clone())), Box::new(k));
+                        let read = Expr::Deref(Box::new(Expr::Var(c.name.clone())));
+                        if self.tape.bool() { Expr::Bin(o, Box::new(read), Box::new(update)) } else { Expr::Bin(o, Box::new(update), Box::new(read)) }
+                    }
                     // an unparenthesised operation on the right: the assignment takes all of it
                     _ if compound_rhs => {
                         self.label("compound assignment with an operation on its right");
